@@ -122,7 +122,8 @@ Print Assumptions C17_faithful_wrapped_composite_unfixed_refuted.
 
 (* Full faithfulness would be:  forall m1 m2, describe m1 = describe m2 -> forall v, accepts m1 v = accepts m2 v.
    It is still false of the code (open known findings; each witness is replayed on the implementation by the check):
-   all_of() and any_of() are both ":"; dict keys lose their type in json.dumps. *)
+   all_of() and any_of() are both ":"; dict keys lose their type in json.dumps; the scope of a container inside a conjugated
+   sentence (F25). *)
 Theorem C17_faithful_refuted_empty_composite : exists m1 m2 v,
   describe not_of_source comp_of_source m1 = describe not_of_source comp_of_source m2 /\ accepts m1 v = true /\ accepts m2 v = false.
 Proof. exact faithful_refuted_empty_composite. Qed.
@@ -132,6 +133,14 @@ Theorem C17_faithful_refuted_dict_key : exists m1 m2 v,
   describe not_of_source comp_of_source m1 = describe not_of_source comp_of_source m2 /\ accepts m1 v = true /\ accepts m2 v = false.
 Proof. exact faithful_refuted_dict_key. Qed.
 Print Assumptions C17_faithful_refuted_dict_key.
+
+(* F25 (open): inside a conjugating container the scope of an inner container is lost -- has_item(has_entry("a", any_of(1,
+   is_integer()))) and has_item(any_of(has_entry("a", 1), is_integer())) share the description
+   `to have an item whose value has entry "a" that is equal to 1 or is an integer` and disagree on [5] *)
+Theorem C17_faithful_refuted_container_scope : exists m1 m2 v,
+  describe not_of_source comp_of_source m1 = describe not_of_source comp_of_source m2 /\ accepts m1 v = true /\ accepts m2 v = false.
+Proof. exact faithful_refuted_container_scope. Qed.
+Print Assumptions C17_faithful_refuted_container_scope.
 
 (* What is proved of faithfulness (partial): at TOKEN level.  Leaf wordings and their negative forms are opaque tokens
    (a literal = a leaf matcher in its positive or negative form), "and" / "or" / ":" / "-" are tokens, and the indentation of
